@@ -333,6 +333,7 @@ func (s *server) ModifyColumnFamilies(ctx context.Context, req *btapb.ModifyColu
 	if len(dropped) > 0 {
 		// Purge all data of the dropped families (also of one re-created later in the same request).
 		var emptied []keyType
+		var rewritten []*btpb.Row
 		tbl.rows.Ascend(func(r *btpb.Row) bool {
 			kept := r.Families[:0]
 			for _, fam := range r.Families {
@@ -345,12 +346,16 @@ func (s *server) ModifyColumnFamilies(ctx context.Context, req *btapb.ModifyColu
 				if len(kept) == 0 {
 					emptied = append(emptied, r.Key)
 				} else {
-					tbl.rows.ReplaceOrInsert(r)
+					rewritten = append(rewritten, r)
 				}
 			}
 			return true
 		})
-		// Rows left without cells are removed (after the iteration, see DropRowRange).
+		// Rows are neither rewritten nor removed while the scan is in progress (see DropRowRange;
+		// the btree splits a full node even for a replacement, which ends a scan of the live tree early).
+		for _, r := range rewritten {
+			tbl.rows.ReplaceOrInsert(r)
+		}
 		for _, k := range emptied {
 			tbl.rows.Delete(k)
 		}
@@ -1533,13 +1538,19 @@ func (t *table) gc(now bigtable.Timestamp, done <-chan struct{}, force bool) {
 		}
 	}()
 
-	i := 0
+	// collect rewrites rows, which must not happen while a scan is in progress (the btree splits
+	// a full node even for a replacement, which ends a scan of the live tree early): take the keys
+	// first, then visit them.
+	var keys []keyType
 	t.rows.Ascend(func(r *btpb.Row) bool {
-		if collect(r.Key) {
-			emptied = append(emptied, r.Key)
+		keys = append(keys, r.Key)
+		return true
+	})
+	visit := func(i int, key keyType) bool {
+		if collect(key) {
+			emptied = append(emptied, key)
 		}
-		i++
-		if i%100 != 0 {
+		if (i+1)%100 != 0 {
 			return true
 		}
 
@@ -1553,7 +1564,12 @@ func (t *table) gc(now bigtable.Timestamp, done <-chan struct{}, force bool) {
 		default:
 			return true
 		}
-	})
+	}
+	for i, key := range keys {
+		if !visit(i, key) {
+			break
+		}
+	}
 }
 
 func (t *table) read() {
